@@ -35,9 +35,39 @@ def cases(rng, tier):
             if n < 2:
                 x = [Fraction(0), Fraction(3)]
                 n = 2
-        yield {"argrep": S.pick_argrep(rng, 0.7), "container": rng.choice(["array", "array", "array", "labels", "interval", "interval-corrected"]),
-               "x": [str(v) for v in x], "y": [str(v) for v in rng.values(n)], "r": rng.randint(1, 12),
-               "int": integer, "via": rng.choice(["process", "weaver"]), "a": rng.randint(1, 4), "b": rng.randint(1, 3)}
+        c = {"argrep": S.pick_argrep(rng, 0.7), "container": rng.choice(["array", "array", "array", "labels", "interval", "interval-corrected"]),
+             "x": [str(v) for v in x], "y": [str(v) for v in rng.values(n)], "r": rng.randint(1, 12),
+             "int": integer, "via": rng.choice(["process", "weaver"]), "a": rng.randint(1, 4), "b": rng.randint(1, 3)}
+        if integer and rng.random() < 0.6:
+            narrow_abscissae(c, rng)
+        yield c
+
+
+NARROW = [("uint8", 0, 2 ** 8), ("int8", -2 ** 7, 2 ** 7), ("uint16", 0, 2 ** 16), ("int16", -2 ** 15, 2 ** 15),
+          ("uint32", 0, 2 ** 32), ("int32", -2 ** 31, 2 ** 31)]
+
+
+def narrow_abscissae(c, rng):
+    """integer abscissae in a narrow NumPy dtype (a tick counter, sample numbers, seconds of a day in uint32): every
+    sample fits, and half of the time the series is moved / stretched so that it uses the dtype's range - then the span
+    plus the last step (one period) does NOT fit although every sample does.  The extension is defined on the numbers."""
+    x = [Fraction(v) for v in c["x"]]
+    name, lo, hi = rng.choice(NARROW)
+    span = x[-1] - x[0]
+    if span >= hi - lo:
+        return
+    if rng.random() < 0.5:
+        # one full cycle of the counter: first sample at the bottom of the range, last sample near the top
+        k = int((hi - lo - 1) // span) if span else 1
+        k = max(1, k)
+        x = [(v - x[0]) * k + lo for v in x]
+    else:
+        shift = rng.randint(lo, hi - 1 - int(span)) - x[0]
+        x = [v + shift for v in x]
+    if not all(v.denominator == 1 and lo <= v < hi for v in x):
+        return
+    c["x"] = [str(v) for v in x]
+    c["xdtype"] = name
 
 
 def mem_case(rng):
@@ -119,7 +149,7 @@ def run_impl(c):
     from traffic_weaver.process import repeat
     from traffic_weaver import Weaver
     x, y = V(c)
-    xa = S.arr([int(v) for v in x]) if c["int"] else S.arr(floats(x))
+    xa = S.arr([int(v) for v in x], dtype=c.get("xdtype")) if c["int"] else S.arr(floats(x))
     ya = S.arr(floats(y))
     if c.get("container") == "labels" and c["via"] == "process":
         xa, ya = S.LabelSeries(xa), S.LabelSeries(ya)      # columns of a sorted data frame
